@@ -278,6 +278,16 @@ class LoopInv:
         self.decreases = expr
         return self
 
+    def exits_under(self, label, env_expr, havoc=(), prop=None, tag=None):
+        """Progress obligation of a polling loop, relative to a declared eventual guarantee of the other threads: in any state
+        satisfying the invariant, once the shared state named in `havoc` has been changed arbitrarily by them and `env_expr`
+        (their guarantee, an assumption listed under `tag`) holds, the loop test is false, i.e. the loop cannot poll for ever
+        on something the environment never promises."""
+        if not hasattr(self, "exits_"):
+            self.exits_ = []
+        self.exits_.append((label, env_expr, list(havoc), prop, tag))
+        return self
+
 
 EXC_TREE = {
     "BaseException": None,
